@@ -22,7 +22,7 @@ const sec = int64(1_000_000_000)
 
 // ---------------------------------------------------------------- Coq rendering
 
-func coqOp(op *Op) string {
+func coqOp(op *Op, sched bool) string {
 	g := "None"
 	if op.G >= 0 {
 		g = c.Some(c.Z(int64(op.G)))
@@ -53,6 +53,18 @@ func coqOp(op *Op) string {
 	o := &op.Obs
 	obs := c.Tuple(c.B(o.Rejected), c.Z(int64(o.Asking)), c.B(o.Panic || len(o.Stranded) > 0),
 		c.MapList(o.Returned, func(v Verdict) string { return c.Tuple(c.Z(int64(v.R)), c.B(v.Allowed)) }))
+	if sched {
+		if op.K == OpWake {
+			t = "SWake"
+		} else {
+			t = "SOp (" + t + ")"
+		}
+		nea := int64(-1)
+		if o.Nea != nil {
+			nea = *o.Nea
+		}
+		obs = c.Tuple(obs, c.Z(nea))
+	}
 	return c.Tuple(t, obs)
 }
 
@@ -64,7 +76,7 @@ func coqCase(k *Case) string {
 	cfg := c.Tuple(c.Z(int64(k.Cfg.Max)), c.Z(int64(k.Cfg.SMax)), c.Z(int64(k.Cfg.TTLSec)*sec), c.B(k.Cfg.Header), c.ZList(g))
 	ops := make([]string, len(k.Ops))
 	for i := range k.Ops {
-		ops[i] = coqOp(&k.Ops[i])
+		ops[i] = coqOp(&k.Ops[i], k.Sched)
 	}
 	return c.Tuple(cfg, c.List(ops))
 }
@@ -73,27 +85,113 @@ func coqCase(k *Case) string {
 
 // session = a world plus the list of operations actually executed.
 type session struct {
-	w  *world
-	k  Case
-	ng int // next fresh request number
+	w      *world
+	k      Case
+	ng     int   // next fresh request number
+	now    int64 // clock, ns since the processor was created
+	wokeAt int64 // instant of the last wake / scan operation (-1: none)
 }
 
 func newSession(cfg Cfg, hooked bool, name string) *session {
-	return &session{w: newWorld(cfg, hooked), k: Case{Name: name, Hooked: hooked, Cfg: cfg}, ng: 1}
+	return &session{w: newWorld(cfg, hooked), k: Case{Name: name, Hooked: hooked, Cfg: cfg}, ng: 1, wokeAt: -1}
+}
+
+// newSchedSession: a case of the suite "sched" (needs the yield points and the
+// timer shim; the caller checks both).
+func newSchedSession(cfg Cfg, name string) *session {
+	s := newSession(cfg, true, name)
+	s.w.sched = true
+	s.k.Sched = true
+	return s
 }
 
 func (s *session) do(op Op) *Obs {
 	if !s.w.exec(&op) {
 		return nil
 	}
+	switch op.K {
+	case OpAdvance:
+		s.now += op.D
+	case OpWake, OpScan:
+		s.wokeAt = s.now
+	}
 	s.k.Ops = append(s.k.Ops, op)
 	return &s.k.Ops[len(s.k.Ops)-1].Obs
+}
+
+// spin = how far the clock may move between two runs of a watcher whose timer
+// is due (it re-arms with a zero wait): half of the slack the monitor allows.
+const spin = slackNs / 2
+
+// fairAdvance moves the clock forward by d (or less, when that takes too many
+// steps) the way time passes under a watcher that wakes whenever its timer is
+// due: the clock never passes nextExpireAt without a wake operation at that
+// instant, and while the timer stays due a wake follows every step of at most
+// spin.  Only for cases of the suite "sched".
+func (s *session) fairAdvance(d int64) {
+	w := s.w
+	for steps := 0; d > 0 && steps < 12; steps++ {
+		if w.drained { // the watcher has left
+			s.do(Op{K: OpAdvance, D: d})
+			return
+		}
+		nea, _ := w.nea()
+		if nea <= s.now && s.wokeAt != s.now {
+			s.do(Op{K: OpWake})
+			continue
+		}
+		step := d
+		if nea > s.now {
+			if nea-s.now < step {
+				step = nea - s.now
+			}
+		} else if spin < step {
+			step = spin
+		}
+		s.do(Op{K: OpAdvance, D: step})
+		d -= step
+		if nea, _ = w.nea(); nea <= s.now {
+			s.do(Op{K: OpWake})
+		}
+	}
+}
+
+// finishSched brings a case of the suite "sched" to rest: the loop is ended,
+// parked arrivals proceed, removals are released, and then time passes under a
+// fair watcher (to its timer, wake, ...) until nobody waits any more.
+func (s *session) finishSched() Case {
+	w := s.w
+	for w.ticking {
+		if w.atSignal {
+			s.do(Op{K: OpSignal})
+		} else {
+			s.do(Op{K: OpAnswer, B: false})
+		}
+	}
+	for _, n := range append([]int(nil), w.order...) {
+		if w.reqs[n].parked {
+			s.do(Op{K: OpEnter, R: n})
+		}
+	}
+	s.do(Op{K: OpGate, B: true})
+	for round := 0; round < 10 && w.waiting() > 0 && !w.drained; round++ {
+		d := int64(1)
+		if nea, _ := w.nea(); nea > s.now {
+			d = nea - s.now
+		}
+		s.fairAdvance(d)
+	}
+	w.close()
+	return s.k
 }
 
 // finish appends the tail that brings every case to rest: the loop is ended,
 // parked arrivals proceed, removals are released, every request expires and a
 // scan runs.  All of it is part of the case (the model executes it too).
 func (s *session) finish() Case {
+	if s.k.Sched {
+		return s.finishSched()
+	}
 	w := s.w
 	for w.ticking {
 		if w.atSignal {
@@ -149,6 +247,9 @@ func record(o *c.Out, suite string, k Case) {
 // replay a recorded case: same configuration, same operations.
 func replay(k Case, hooked bool) Case {
 	s := newSession(k.Cfg, hooked, k.Name)
+	if k.Sched {
+		s.w.sched, s.k.Sched = true, true
+	}
 	for _, op := range k.Ops {
 		s.do(Op{K: op.K, R: op.R, G: op.G, D: op.D, B: op.B})
 	}
@@ -190,6 +291,14 @@ func probeHooks() (all bool, missing []string) {
 	return len(missing) == 0, missing
 }
 
+// probeShim tells whether the tree under check exports the watcher's timer.
+func probeShim() bool {
+	s := newSession(Cfg{Max: 1, SMax: -1, TTLSec: 1}, false, "probe")
+	ok := s.w.shim != nil
+	s.finish()
+	return ok
+}
+
 // ---------------------------------------------------------------- generators
 
 func randomCfg(r *c.Rng) Cfg {
@@ -220,15 +329,19 @@ func randomGroup(r *c.Rng, cfg *Cfg, sticky int) int {
 
 // one random history, generated on line (the next operation is chosen knowing
 // what the implementation did so far, only to keep the schedule well-formed).
-func genRandom(r *c.Rng, hooked bool) Case {
+func genRandom(r *c.Rng, hooked bool, sched bool) Case {
 	cfg := randomCfg(r)
-	s := newSession(cfg, hooked, "")
+	var s *session
+	if sched {
+		s = newSchedSession(cfg, "")
+	} else {
+		s = newSession(cfg, hooked, "")
+	}
 	w := s.w
 	ttl := int64(cfg.TTLSec) * sec
 	sticky := r.Range(-1, len(cfg.Groups))
 	steps := r.Range(6, 40)
 	var lastArrival int64
-	var now int64
 	for i := 0; i < steps; i++ {
 		if w.ticking && r.Chance(7, 10) {
 			if w.atSignal {
@@ -237,6 +350,24 @@ func genRandom(r *c.Rng, hooked bool) Case {
 				b := r.Chance(3, 5)
 				s.do(Op{K: OpAnswer, B: b})
 				if b && !hooked {
+					s.do(Op{K: OpSignal})
+				}
+			}
+			continue
+		}
+		if sched && !w.ticking && !w.drained && w.waiting() > 0 && r.Chance(1, 10) {
+			// the loop takes the head shortly before the expiry of the latest
+			// arrival and is still inside the quota call when time passes over it
+			ms := sec / 1000
+			if d := lastArrival + ttl - s.now; d > ms {
+				s.fairAdvance(d - ms)
+			}
+			s.do(Op{K: OpTick})
+			if w.ticking && !w.atSignal {
+				s.fairAdvance(ms + int64(r.Range(0, 2)))
+				b := r.Chance(1, 4)
+				s.do(Op{K: OpAnswer, B: b})
+				if b {
 					s.do(Op{K: OpSignal})
 				}
 			}
@@ -253,7 +384,7 @@ func genRandom(r *c.Rng, hooked bool) Case {
 			} else {
 				s.do(Op{K: OpArrive, R: n, G: g})
 			}
-			lastArrival = now
+			lastArrival = s.now
 		case x < 38:
 			var parked []int
 			for _, n := range w.order {
@@ -272,17 +403,21 @@ func genRandom(r *c.Rng, hooked bool) Case {
 			// mostly short steps; sometimes an instant around a time-to-live edge
 			d := c.Pick(r, []int64{1, sec / 10, sec / 10, sec / 2, sec / 2, ttl - 1, ttl, ttl + 1})
 			if r.Chance(1, 3) {
-				if e := lastArrival + ttl - now + int64(r.Range(-1, 1)); e > 0 {
+				if e := lastArrival + ttl - s.now + int64(r.Range(-1, 1)); e > 0 {
 					d = e
 				}
 			}
+			if sched && r.Chance(4, 5) {
+				// time passes under a watcher that wakes whenever its timer is due
+				s.fairAdvance(d)
+				break
+			}
 			s.do(Op{K: OpAdvance, D: d})
-			now += d
 			if r.Chance(2, 3) {
-				s.do(Op{K: OpScan})
+				s.do(Op{K: scanOp(r, sched)})
 			}
 		case x < 84:
-			s.do(Op{K: OpScan})
+			s.do(Op{K: scanOp(r, sched)})
 		case x < 93:
 			if hooked {
 				s.do(Op{K: OpGate, B: r.Chance(1, 2)})
@@ -294,6 +429,77 @@ func genRandom(r *c.Rng, hooked bool) Case {
 				s.do(Op{K: OpDrain})
 			}
 		}
+	}
+	return s.finish()
+}
+
+// a scan by hand, or (suite "sched", mostly) a look at the watcher's timer
+func scanOp(r *c.Rng, sched bool) string {
+	if sched && r.Chance(3, 4) {
+		return OpWake
+	}
+	return OpScan
+}
+
+// named schedules of the suite "sched": the watcher's timer (nextExpireAt) in
+// the situations the theorems of the scheduling section mention.
+func schedSchedules() []scripted {
+	one := Cfg{Max: 1, SMax: -1, TTLSec: 2}
+	two := Cfg{Max: 2, SMax: -1, TTLSec: 2}
+	ttl := 2 * sec
+	ms := sec / 1000
+	T, F := true, false
+	return []scripted{
+		// the watcher is half a second late; its scan lands inside the loop's quota
+		// check of the expired request; the check comes back blocked (seed C06-7)
+		{"scan-inside-quota-check-watcher-late", one, []Op{
+			{K: OpArrive, R: 1, G: -1}, {K: OpAdvance, D: ttl + sec/2}, {K: OpTick}, {K: OpWake},
+			{K: OpAnswer, B: F}}},
+		// the same with a watcher that is on time: the loop takes the request 1 ms
+		// before its expiry and still holds it when the timer fires
+		{"scan-inside-quota-check-watcher-on-time", one, []Op{
+			{K: OpArrive, R: 1, G: -1}, {K: OpAdvance, D: ttl - ms}, {K: OpTick}, {K: OpAdvance, D: ms}, {K: OpWake},
+			{K: OpAdvance, D: 1}, {K: OpWake}, {K: OpAnswer, B: F}}},
+		// ... and the quota admits: allowed after the expiry, the loop held it
+		{"scan-inside-quota-check-admitted", one, []Op{
+			{K: OpArrive, R: 1, G: -1}, {K: OpAdvance, D: ttl - ms}, {K: OpTick}, {K: OpAdvance, D: ms}, {K: OpWake},
+			{K: OpAdvance, D: 1}, {K: OpWake}, {K: OpAnswer, B: T}, {K: OpWake}, {K: OpSignal}, {K: OpWake}}},
+		// the loop takes the request again before the watcher runs: held at two scans
+		{"held-at-two-scans", one, []Op{
+			{K: OpArrive, R: 1, G: -1}, {K: OpAdvance, D: ttl}, {K: OpWake}, {K: OpTick}, {K: OpAdvance, D: 1}, {K: OpWake},
+			{K: OpAnswer, B: F}, {K: OpTick}, {K: OpAdvance, D: spin}, {K: OpWake}, {K: OpAnswer, B: F}}},
+		// a scan between slot check and registration: the timer goes to now + TTL,
+		// the request registers with its expiry already behind: bound = registration + TTL
+		{"registration-lag", two, []Op{
+			{K: OpCheck, R: 1, G: -1}, {K: OpAdvance, D: ttl}, {K: OpWake}, {K: OpEnter, R: 1}}},
+		// a signalled entry whose removal is held back keeps the timer in the past
+		{"stale-entry-keeps-timer-due", two, []Op{
+			{K: OpGate, B: F}, {K: OpArrive, R: 1, G: -1}, {K: OpAdvance, D: ttl}, {K: OpWake}, {K: OpAdvance, D: 1}, {K: OpWake},
+			{K: OpAdvance, D: spin}, {K: OpWake}, {K: OpArrive, R: 2, G: -1}, {K: OpAdvance, D: spin}, {K: OpWake},
+			{K: OpGate, B: T}, {K: OpWake}}},
+		// two requests half a second apart: the timer steps from one expiry to the next
+		{"timer-steps-through-expiries", two, []Op{
+			{K: OpArrive, R: 1, G: -1}, {K: OpAdvance, D: sec / 2}, {K: OpArrive, R: 2, G: -1},
+			{K: OpAdvance, D: ttl - sec/2}, {K: OpWake}, {K: OpAdvance, D: 1}, {K: OpWake}, {K: OpWake},
+			{K: OpAdvance, D: sec/2 - 1}, {K: OpWake}, {K: OpAdvance, D: 1}, {K: OpWake}, {K: OpWake}}},
+		// a wake-up before the timer is due does nothing; a scan by hand recalculates
+		{"early-wake-is-a-no-op", one, []Op{
+			{K: OpArrive, R: 1, G: -1}, {K: OpAdvance, D: sec}, {K: OpWake}, {K: OpScan}, {K: OpAdvance, D: sec - 1}, {K: OpWake},
+			{K: OpAdvance, D: 1}, {K: OpWake}, {K: OpAdvance, D: 1}, {K: OpWake}}},
+		// admitted long before the expiry: the timer passes over the removed entry
+		{"admitted-entry-leaves-the-table", one, []Op{
+			{K: OpArrive, R: 1, G: -1}, {K: OpTick}, {K: OpAnswer, B: T}, {K: OpSignal}, {K: OpAdvance, D: ttl}, {K: OpWake},
+			{K: OpArrive, R: 2, G: -1}, {K: OpAdvance, D: ttl}, {K: OpWake}}},
+		// shutdown: the watcher has left, the drain releases everybody
+		{"drain-before-expiry", two, []Op{
+			{K: OpArrive, R: 1, G: -1}, {K: OpAdvance, D: sec}, {K: OpDrain}, {K: OpAdvance, D: 2 * ttl}}},
+	}
+}
+
+func runSched(sc scripted) Case {
+	s := newSchedSession(sc.cfg, sc.name)
+	for _, op := range sc.ops {
+		s.do(op)
 	}
 	return s.finish()
 }
@@ -486,10 +692,15 @@ func main() {
 	const caseType = "case"
 	o.DeclareSuite("histories", "From Verif Require Import C06.Model.", caseType, "run_case")
 	o.DeclareSuite("forced", "From Verif Require Import C06.Model.", caseType, "run_case")
+	o.DeclareSuite("sched", "From Verif Require Import C06.Model C06.Sched.", "scase", "run_scase")
 	o.Rule("histories: random schedules of arrive / check+enter (split at queue.slot_checked) / tick+answer+signal " +
 		"(quota answers scripted, split at queue.before_signal) / advance (around TTL edges) / scan / gate (holds " +
 		"queue.before_remove) / drain over random settings (queue size -1..4, shared size, TTL 1..3 s, priority groups); " +
 		"forced: the named interleavings of the theorems plus merges of arrival, loop, TTL and drain programs; " +
+		"sched: the watcher's timer — named schedules (scan inside the loop's quota check of the expiring request with the check " +
+		"coming back blocked, registration lag, stale entries, ...) and random schedules in which time passes under a " +
+		"watcher that wakes whenever nextExpireAt is due (wake = the real scan + recalculation run when the real " +
+		"nextExpireAt <= mock clock); nextExpireAt is compared after every operation; " +
 		"burst (monitor only): back-to-back Enqueue calls of one priority on the real in-memory queue come out in order " +
 		"(the trusted strictly-increasing-stamps assumption); " +
 		"distinct = distinct (settings, operations, observations); non-trivial = at least one admission, one " +
@@ -504,12 +715,26 @@ func main() {
 			Observed: "missing: " + strings.Join(missing, ", "), Case: map[string]any{"missing": missing}})
 	}
 
+	schedOK := hooked && probeShim()
+	if hooked && !schedOK {
+		o.Note("the tree under check does not export the TTL watcher's timer (verif_c06b.go, NextExpireAt): the suite sched was not run")
+		o.Hit(c.Hit{Suite: "sched", Index: -1, Signature: "hooks-missing:watcher-timer-shim",
+			Demanded: "VerifHandle.NextExpireAt (add-only shim streams/processors/queue/verif_c06b.go) present so that the scheduling of the TTL watcher can be observed",
+			Observed: "the handle returned by VerifHandleOf has no method NextExpireAt", Case: map[string]any{"missing": "verif_c06b.go"}})
+	}
+
 	burstFIFO(o)
 
 	var k Case
 	if _, ok := o.ReplayCase(&k); ok {
 		if len(k.Ops) > 0 {
-			record(o, "forced", replay(k, hooked && k.Hooked))
+			if k.Sched {
+				if schedOK {
+					record(o, "sched", replay(k, true))
+				}
+			} else {
+				record(o, "forced", replay(k, hooked && k.Hooked))
+			}
 		}
 		o.Finish()
 		return
@@ -541,10 +766,20 @@ func main() {
 			}
 		}
 	}
+	if schedOK {
+		for _, sc := range schedSchedules() {
+			record(o, "sched", runSched(sc))
+		}
+		ns := o.Scale(500, 6000, 3000)
+		sr := o.Rng.Fork(7)
+		for i := 0; i < ns; i++ {
+			record(o, "sched", genRandom(sr, true, true))
+		}
+	}
 	n := o.Scale(2500, 25000, 8000)
 	hr := o.Rng.Fork(1)
 	for i := 0; i < n; i++ {
-		record(o, "histories", genRandom(hr, hooked))
+		record(o, "histories", genRandom(hr, hooked, false))
 	}
 	o.Finish()
 }
